@@ -38,6 +38,8 @@ pub struct ActorPlan {
     pub abuser: bool,
     /// Sends only what a conformant client may send (C11's well-behaved connections).
     pub conformant: bool,
+    /// Maximum number of unanswered requests before the actor waits (0 = unlimited pipelining).
+    pub window: usize,
     pub script: Vec<Op>,
 }
 
@@ -65,7 +67,7 @@ impl WirePlan {
             "teardown": match self.teardown { Teardown::Clean => "clean", Teardown::BrokerShutdown => "broker-shutdown" },
             "actors": self.actors.iter().map(|a| serde_json::json!({
                 "major": a.major, "minor": a.minor, "legacy": a.legacy, "capacity": a.capacity,
-                "abuser": a.abuser, "conformant": a.conformant,
+                "abuser": a.abuser, "conformant": a.conformant, "window": a.window,
                 "script": a.script.iter().map(|o| o.to_json()).collect::<Vec<_>>(),
             })).collect::<Vec<_>>(),
         })
@@ -83,6 +85,7 @@ impl WirePlan {
                     capacity: a["capacity"].as_u64()? as usize,
                     abuser: a["abuser"].as_bool()?,
                     conformant: a["conformant"].as_bool().unwrap_or(false),
+                    window: a["window"].as_u64().unwrap_or(0) as usize,
                     script: a["script"]
                         .as_array()?
                         .iter()
